@@ -220,13 +220,45 @@ def run(chk, parts=('L1', 'L2', 'L2b', 'L3')):
         appends = any(c.get('k') == 'MCall' and c['n'] == 'push_str' and T.show(T.peel(c['a'][0])) == 'text' for c in T.calls(pe['body']))
         rec = [n for n in T.walk(pe['body']) if n.get('k') == 'AssignOp' and n['op'] in ('+', '+=') and 'token_col_shift' in T.show(n['x'])]
         formula = rec and T.norm(T.show(rec[0]['y'])).replace(' ', '') in ('consumedasi32-text.chars().count()asi32', 'consumedas_-text.chars().count()as_')
-        used = all(any('token_col_shift' in T.show(n) for n in T.walk(by[nm]['body']) if n.get('k') in ('Let', 'AssignOp', 'Assign'))
-                   and any(n.get('k') in ('Assign', 'AssignOp') and 'col_token_starts' in T.show(n['x']) and ('shift' in T.show(n['y'])) for n in T.walk(by[nm]['body']))
-                   for nm in ('Lexer::emit_singleline_token', 'Lexer::emit_multiline_token') if nm in by)
-        push_escaped_ok = bool(appends and formula and used)
+        push_escaped_ok = bool(appends and formula)
         if not push_escaped_ok:
             chk.lost.append('Lexer::push_escaped exists but is not of the form `s.push_str(text); self.token_col_shift += consumed as i32 - text.chars().count() as i32` '
-                            'with both emit functions adding the shift to the column (appends=%s formula=%s used=%s)' % (appends, bool(formula), used))
+                            '(appends=%s formula=%s)' % (appends, bool(formula)))
+        # the recorded difference is worth something only if the column advance of both emit functions includes it
+        for nm in ('Lexer::emit_singleline_token', 'Lexer::emit_multiline_token'):
+            f_ = by.get(nm)
+            if f_ is None:
+                continue
+            lets_ = {}
+            for n in T.walk(f_['body']):
+                if n.get('k') == 'Let' and n.get('init') is not None:
+                    for b_ in T.walk(n['pat']):
+                        if b_.get('k') == 'Bind':
+                            lets_[b_['id']] = n['init']
+
+            # a local also carries what is assigned to one of its fields (`token.col_end = ..shift..`)
+            field_writes = {}
+            for n in T.walk(f_['body']):
+                if n.get('k') in ('Assign', 'AssignOp') and T.peel(n['x']).get('k') == 'Field':
+                    base = T.peel(T.peel(n['x']).get('x') or {})
+                    if base.get('k') == 'Local':
+                        field_writes.setdefault(base['id'], []).append(n['y'])
+
+            def from_shift(e, seen=()):
+                if 'token_col_shift' in T.show(e):
+                    return True
+                for x in T.walk(e):
+                    if x.get('k') == 'Local' and x.get('id') not in seen:
+                        srcs = ([lets_[x['id']]] if x['id'] in lets_ else []) + field_writes.get(x['id'], [])
+                        if any(from_shift(s_, seen + (x['id'],)) for s_ in srcs):
+                            return True
+                return False
+            writes = [n for n in T.walk(f_['body']) if n.get('k') in ('Assign', 'AssignOp') and T.show(n['x']).endswith('col_token_starts')]
+            if any(from_shift(n['y']) for n in writes):
+                chk.ok(PREFIX + '-L2', (nm, 'adds-escape-shift'))
+            else:
+                chk.bad(PREFIX + '-L2', nm, 'ignores-escape-shift', '%s advances the column without the difference that push_escaped records for escape sequences (consumed minus appended '
+                        'characters): every token after a string with `\\n` / `\\t` on the same line is reported at a shifted column' % nm, LEX, writes[0].get('l') if writes else f_.get('line'))
     escapes = 0
     for f in fns:
         fname = T.norm(f['path'])
@@ -256,8 +288,8 @@ def run(chk, parts=('L1', 'L2', 'L2b', 'L3')):
                         lit, cons = T.peel(c['a'][1]), T.lit_int(T.peel(c['a'][2]))
                         txt = (lit.get('v') or {}).get('str') if lit.get('k') == 'Lit' else None
                         n_app = len(txt) if txt is not None else (1 if 'encode_utf8' in T.show(lit) else None)
-                        if n_app is None or cons is None or not push_escaped_ok:
-                            pushed += 10 ** 6      # not understood: reported below as a mismatch
+                        if n_app is None or cons is None:
+                            chk.lost.append('%s: push_escaped call with a non-literal text / length (%s)' % (fname, T.show(c)[:60]))
                         else:
                             pushed += n_app
                             recorded += cons - n_app
@@ -284,7 +316,7 @@ def run(chk, parts=('L1', 'L2', 'L2b', 'L3')):
         f = by.get(nm)
         if not chk.need(f is not None, nm + ' not found'):
             continue
-        adv = [n for n in T.walk(f['body']) if 'col_token_starts' in T.show(n.get('x') or {}) and (n.get('k') == 'AssignOp' or (n.get('k') == 'Assign' and 'col_token_starts +' in T.show(n['y'])))]
+        adv = [n for n in T.walk(f['body']) if 'col_token_starts' in T.show(n.get('x') or {}) and (n.get('k') == 'AssignOp' or (n.get('k') == 'Assign' and T.lit_int(T.peel(n['y'])) is None))]
         chk.need(bool(adv), '%s no longer advances col_token_starts' % nm)
     # ---- L2b bytes as columns
     nb = 0
